@@ -46,6 +46,7 @@ def run(idx: Index, rep: Report, tier: str):
     check_dunders(idx, rep, an, tier)
     check_subclass_attr_guards(idx, rep)
     check_multiform_tables(idx, rep)
+    check_multiform_semantics(idx, rep, tier)
     check_index_ranges(idx, rep)
     check_resync_after_compress(idx, rep)
     check_plain_operand_guard(idx, rep)
@@ -261,31 +262,105 @@ def check_multiform_tables(idx: Index, rep: Report):
     xors = [n for n in own_nodes(mul.node) if isinstance(n, ast.BinOp) and isinstance(n.op, ast.BitXor)]
     rep.decide(bool(xors), rule, mul, xors[0] if xors else mul.node, text="product label = XOR of integer codes",
                what="the Pauli label of a product is the XOR of the integer codes", reason="no XOR of integer codes found")
-    # -- do_commute
+
+
+def check_multiform_semantics(idx: Index, rep: Report, tier: str):
+    """The array-based operator form folded as a class (construction from a symbolic operator, product with duplicate collapse, commutation test), with
+    numpy evaluating the array primitives on concrete tables, for every pair of two-qubit Pauli words and a set of multi-term operators; compared with the
+    symbolic form computed by the checker's own Pauli algebra (sa/rules/ofmodel.py)."""
+    import itertools
+    from ..consteval import FuncVal, Raised, Undecidable
+    from ..rules import circuitsem as cs
+    from ..rules.ofmodel import OrdQubitOp, _simplify
+    rule = "K9.multiform-semantics"
+    cls = cs.module_resolver(idx, MULTI)("MultiformOperator")
+    if cls is None:
+        raise AnalysisError("MultiformOperator not resolvable")
+    fq = idx.function(f"{MULTI}::MultiformOperator.from_qubitop")
     dc = idx.function(f"{MULTI}::do_commute")
-    loop = [n for n in own_nodes(dc.node) if isinstance(n, ast.For)]
-    ok = bool(loop) and "binary_swap" in norm(loop[0].iter)
-    ands = [n for n in own_nodes(dc.node) if isinstance(n, ast.BinOp) and isinstance(n.op, ast.BitAnd)]
-    ok2 = bool(ands) and norm(ands[0]).replace(" ", "") in ("term&hybrid_op_b.binary", "hybrid_op_b.binary&term")
-    rep.decide(ok and ok2, rule, dc, loop[0] if loop else dc.node, text="symplectic form: swapped(a) & b, XOR-reduced",
-               what="commutation of two words is the parity of x_a.z_b + z_a.x_b (swapped form of a AND b)",
-               reason="the symplectic product does not pair the swapped form of a with b")
-    # overall answer: the operators commute iff NO term of a anticommutes with some term of b
-    rets = [n for n in own_nodes(dc.node) if isinstance(n, ast.Return)]
-    overall = None
-    for r in rets:
-        t = norm(r.value).replace(" ", "")
-        if "term_bool" in t and "logical_not" not in t:
-            overall = r
-    if overall is None:
-        raise AnalysisError("do_commute: overall return not found")
-    t = norm(overall.value).replace(" ", "")
-    ok = t in ("notnp.any(term_bool)", "notterm_bool.any()", "notany(term_bool)", "bool(notnp.any(term_bool))", "np.all(np.logical_not(term_bool))",
-               "notnp.logical_or.reduce(term_bool)")
-    rep.decide(ok, rule, dc, overall, text=f"overall: {norm(overall.value)}",
-               what="two operators are reported as commuting only when no term of the first anticommutes with a term of the second",
-               reason=f"returns {norm(overall.value)}: true as soon as ONE term commutes (e.g. Z0 + X1 with Z0 Z1 is reported commuting, "
-                      f"although [Z0 + X1, Z0 Z1] = -2i Z0 Y1)")
+    mul = idx.function(f"{MULTI}::MultiformOperator.__mul__")
+
+    def folder():
+        fo = cs.make_folder(idx, MULTI, ctors={"count_qubits": lambda a, k: max([q for t in a[0].terms for q, _ in t] + [-1]) + 1, "QubitOperator": lambda a, k: OrdQubitOp(*a, **k)})
+        fo.real_arrays = True
+        return fo
+
+    def qop(terms):
+        q = OrdQubitOp()
+        q.terms = dict(terms)
+        return q
+
+    def word(w):
+        return tuple((i, p) for i, p in enumerate(w) if p != "I")
+    words = ["".join(w) for w in itertools.product("IXYZ", repeat=2)]
+    multi = [{word("XZ"): 1.0, word("IY"): 2.0}, {word("ZI"): 1.0, word("XY"): 0.5}, {word("XI"): 1.0, word("IZ"): 2.0}, {word("ZZ"): -1.5, word("XX"): 1.0, word("YY"): 1.0},
+             {word("XI"): 1.0, word("ZI"): 1.0}, {word("XY"): 1j, word("YX"): -1j, word("II"): 0.5}]
+    ops = [{word(w): 1.0} for w in words] + multi
+    try:
+        forms = [folder().call_funcval(FuncVal(fq.node, home=MULTI), [cls, qop(t), 2], {}) for t in ops]
+    except (Undecidable, Raised) as e:
+        raise AnalysisError(f"MultiformOperator.from_qubitop not foldable: {e}")
+
+    def anti(wa, wb):
+        da, db = dict(wa), dict(wb)
+        return sum(1 for q in set(da) & set(db) if da[q] != db[q]) % 2 == 1
+    pairs = list(itertools.product(range(len(ops)), repeat=2))
+    bad_c, bad_t, bad_p = [], [], []
+    n = 0
+    for i, j in pairs:
+        ta, tb = ops[i], ops[j]
+        per_term = [not any(anti(wa, wb) for wb in tb) for wa in ta]
+        try:
+            got = folder().run_function(dc.node, {"hybrid_op_a": forms[i], "hybrid_op_b": forms[j], "term_resolved": False})
+            got_t = folder().run_function(dc.node, {"hybrid_op_a": forms[i], "hybrid_op_b": forms[j], "term_resolved": True})
+        except Undecidable as e:
+            raise AnalysisError(f"do_commute not foldable: {e}")
+        except Raised as e:
+            bad_c.append(f"{ta} / {tb}: raises {e.exc_type}")
+            continue
+        n += 1
+        if bool(got) != all(per_term) or not isinstance(got, (bool,)) and type(got).__name__ not in ("bool_", "bool"):
+            bad_c.append(f"do_commute({_show(ta)}, {_show(tb)}) = {got!r}, the symbolic test gives {all(per_term)}")
+        if [bool(x) for x in list(got_t)] != per_term:
+            bad_t.append(f"do_commute({_show(ta)}, {_show(tb)}, term_resolved=True) = {[bool(x) for x in list(got_t)]}, the symbolic test gives {per_term}")
+    rep.decide(not bad_c, rule, dc, dc.node, text=f"do_commute on {n} ordered pairs of two-qubit operators (16 words, {len(multi)} multi-term operators)",
+               what="two operators are reported as commuting exactly when no term of the first anticommutes with a term of the second - as the symbolic Pauli algebra says",
+               reason="; ".join(bad_c[:2]))
+    rep.decide(not bad_t, rule, dc, dc.node, text=f"do_commute(term_resolved=True) on the same {n} pairs",
+               what="term by term, the array test marks a term of the first operator as commuting exactly when it commutes with every term of the second",
+               reason="; ".join(bad_t[:2]))
+    prod_pairs = pairs if tier == "thorough" else [(i, j) for i, j in pairs if (i + 3 * j) % 5 == 0 or i >= len(words) or j >= len(words)]
+    m = 0
+    for i, j in prod_pairs:
+        want = {}
+        for wa, ca in ops[i].items():
+            for wb, cb in ops[j].items():
+                ph, w = _simplify(tuple(wa) + tuple(wb))
+                want[w] = want.get(w, 0) + ca * cb * ph
+        want = {k: v for k, v in want.items() if abs(v) > 1e-12}
+        try:
+            fo = folder()
+            prod = fo.call_funcval(FuncVal(mul.node, bound_self=forms[i], home=MULTI), [forms[j]], {})
+        except Undecidable as e:
+            raise AnalysisError(f"MultiformOperator.__mul__ not foldable: {e}")
+        except Raised as e:
+            bad_p.append(f"({_show(ops[i])}) * ({_show(ops[j])}) raises {e.exc_type}")
+            continue
+        m += 1
+        got = {k: complex(v) for k, v in prod.fields["terms"].items() if abs(complex(v)) > 1e-12}
+        if set(got) != set(want) or any(abs(got[k] - want[k]) > 1e-9 for k in want):
+            bad_p.append(f"({_show(ops[i])}) * ({_show(ops[j])}) = {_show(got)}, symbolic product {_show(want)}")
+        elif prod.fields["integer"].shape[0] != len(prod.fields["terms"]) or len(prod.fields["factors"]) != len(prod.fields["terms"]):
+            bad_p.append(f"({_show(ops[i])}) * ({_show(ops[j])}): {prod.fields['integer'].shape[0]} rows for {len(prod.fields['terms'])} terms")
+    rep.decide(not bad_p, rule, mul, mul.node, text=f"array product on {m} ordered pairs: words, phases and collapsed duplicates",
+               what="the product of two array-form operators has the terms and coefficients of the symbolic product, duplicate words added up, one row per term",
+               reason="; ".join(bad_p[:2]))
+    rep.floor("array-form pairs folded", n + m, 300)
+
+
+def _show(terms) -> str:
+    return " + ".join(f"{v:g} {''.join(p + str(q) for q, p in k) or 'I'}" if not isinstance(v, complex) or v.imag == 0 else f"({v:g}) {''.join(p + str(q) for q, p in k) or 'I'}"
+                      for k, v in list(terms.items())[:4]) or "0"
 
 
 WIDE_INT = {"int", "np.int64", "np.intp", "np.int32", "np.uint32", "np.uint64", "numpy.int64", "numpy.intp", "'int64'", "'int'", "np.int_"}
